@@ -324,6 +324,12 @@ func (w *World) VerifyFunc(key string) *Unit {
 		vc.warn("%s: no return reachable", key)
 		return u
 	}
+	// vacuity guard (thorough tier): the facts collected along the way (callee contracts, invariants, axioms) must
+	// leave some way to reach a return; inconsistent facts would make every postcondition "hold"
+	if o := vc.oblige(key, "cover", "exit-reachable", props, retCond, "false"); o != nil {
+		o.Cover = true
+		o.Deep = true
+	}
 	// what a replay of a counterexample needs
 	rc := &ReplayCtx{Fn: fn, RetCond: retCond}
 	for _, p := range fn.Params {
